@@ -165,6 +165,9 @@ func (db *DB) CreateTable(opts *TableOpts) error {
 			// older than that can still hold entries that were written (and
 			// acknowledged) a moment ago. Skipping it lost those inserts on restart.
 			// Entries that really are too old are ignored one by one on insert.
+			// (Copy the map: the row store keeps updating the one it returned, and
+			// limiting the offsets used to produce a copy as a side effect.)
+			offsetsBySource = offsetsBySource.Advance(make(common.OffsetsBySource))
 
 			t.log.Debugf("Starting at WAL offsets %v", offsetsBySource)
 
